@@ -171,11 +171,18 @@ pub fn client_write_timeout(cx: &Cx, rng: &mut Rng) -> ScenarioOut {
     let big_len = if cx.thorough { *rng.pick(&[12usize << 20, 16 << 20, 32 << 20]) } else { *rng.pick(&[12usize << 20, 16 << 20]) } + rng.usize_below(3) - 1;
     let x = 1 + rng.below((big_len as u64 / 2).min(300_000));
     let warm: Vec<Op> = (0..2 + rng.usize_below(4)).map(|_| { let l = rng.usize_below(20_000); g.op(rng.coin(), l) }).collect();
-    let big = g.op(true, big_len);
+    // the interrupted frame goes out through each kind of entry point: a raw notify, a raw call, or the bulk typed-slice call
+    // (whose payload is written by the BEVE encoder, not by write_message)
+    // cycled (not drawn) so that the few rounds of a quick run cover every kind; the stage is replayed as a whole
+    static BIG_KIND: std::sync::atomic::AtomicU64 = std::sync::atomic::AtomicU64::new(0);
+    let big_kind = [3u64, 0, 2, 1][(BIG_KIND.fetch_add(1, SeqCst) % 4) as usize];
+    let mut big = g.op(big_kind < 2, big_len);
+    big.api = (big_kind == 3) as u8;
     let waiters: Vec<Op> = (0..rng.usize_below(4)).map(|_| { let l = rng.usize_below(3000); g.op(true, l) }).collect();
     let further: Vec<Op> = vec![g.op(true, rng.usize_below(200)), g.op(false, rng.usize_below(2000)), g.op(true, 20_000 + rng.usize_below(20_000))];
-    out.ident = hash_of(&(rcvbuf, size_class(big_len), x / 50_000, warm.len(), waiters.len()));
-    out.params = json!({"peer_rcvbuf": rcvbuf, "write_timeout_ms": t_ms, "big_notify_body": big_len, "peer_stalls_after_bytes_of_big_frame": x,
+    out.ident = hash_of(&(rcvbuf, size_class(big_len), x / 50_000, warm.len(), waiters.len(), big_kind.min(2)));
+    let big_api_name = ["notify_with_formats", "notify_with_formats", "call_with_formats", "call_typed_slice"][big_kind as usize];
+    out.params = json!({"peer_rcvbuf": rcvbuf, "write_timeout_ms": t_ms, "big_frame_sent_with": big_api_name, "big_notify_body": big_len, "peer_stalls_after_bytes_of_big_frame": x,
         "warmup_ops": warm.len(), "writers_queued_behind_big": waiters.len(), "further_ops": further.len(), "big_token": format!("{:#x}", big.token)});
     let mut book = Book::default();
     warm.iter().chain([&big]).chain(&waiters).chain(&further).for_each(|o| book.add_by_query(expect_of(o)));
@@ -400,11 +407,12 @@ pub fn aclient_cancel(cx: &Cx, rng: &mut Rng, kind: AKind) -> ScenarioOut {
     let big_is_call = rng.coin();
     let unlimited = big_len > (8 << 20) || rng.coin();
     let warm: Vec<Op> = (0..2 + rng.usize_below(4)).map(|_| { let l = rng.usize_below(20_000); g.op(rng.coin(), l) }).collect();
-    let big = g.op(!big_is_call, big_len);
+    let mut big = g.op(!big_is_call, big_len);
+    big.api = (big_is_call && g.typed && rng.coin()) as u8;
     let waiters: Vec<Op> = (0..rng.usize_below(4)).map(|_| { let l = rng.usize_below(3000); g.op(true, l) }).collect();
     let further: Vec<Op> = vec![g.op(true, rng.usize_below(200)), g.op(false, rng.usize_below(2000)), g.op(true, 20_000 + rng.usize_below(20_000))];
-    out.ident = hash_of(&(rcvbuf, size_class(big_len), x / 50_000, warm.len(), waiters.len(), variant_abort, big_is_call));
-    out.params = json!({"peer_rcvbuf": rcvbuf, "big_body": big_len, "big_is_call": big_is_call, "peer_stalls_after_bytes_of_big_frame": x,
+    out.ident = hash_of(&(rcvbuf, size_class(big_len), x / 50_000, warm.len(), waiters.len(), variant_abort, big_is_call, big.api));
+    out.params = json!({"peer_rcvbuf": rcvbuf, "big_body": big_len, "big_is_call": big_is_call, "big_call_is_typed_slice": big.api == 1, "peer_stalls_after_bytes_of_big_frame": x,
         "cancel": if variant_abort {"JoinHandle::abort"} else {"tokio::time::timeout wrapper"}, "cancel_after_ms": cancel_after_ms,
         "warmup_ops": warm.len(), "writers_queued_behind_big": waiters.len(), "further_ops": further.len(), "big_token": format!("{:#x}", big.token)});
     let mut book = Book::default();
